@@ -17,13 +17,13 @@ from ..runner import call_limited, exc_str
 ID = "C12"
 LEVEL = "exploration"
 RULE = (
-    "pairs: 13 polygon pairs (crossing 2..8 times, nested, disjoint, unbounded operand, hollow/two-component operands, a plate with a 1% tab crossed by a small chip) and 8 curved "
+    "pairs: 13 polygon pairs (crossing 2..8 times, nested, disjoint, unbounded operand, hollow/two-component operands, a plate with a 1% tab crossed by a small chip) and 9 curved "
     "pairs; maps T = translate o rotate o scale with translations {0, (1e3,-2e3), (1e6,1e6)}, angles {0, 90, 30, 137 deg}, scale "
     "factors {1e-3, 1e-2, 1, 1e3, 1e5} (60 maps; angle 0/90 maps are applied exactly in Fractions to integer data). For each (pair, "
     "map): T(A) op T(B) for op in | & - ^ and ~T(A) on the real code; membership of T(w) in the result for every arrangement-face "
     "witness w of the unmapped pair (curved: 21x21 grid with clearance) must equal the reference membership of w in A op B; same kind "
     "as at T = identity; area = s^2 x area at identity (rel 1e-6); T(B) in T(A) iff B subset of A; T(p) in T(A) iff p in A, also for points at 1e-2*size (and 1e-3*size for scale >= 1) on both sides "
-    "of every second curved arc (the sagitta band); T(p) for p at t=1/4,1/2,3/4 of EVERY edge/arc is in the closed shape, not in the open one, and `in` the boundary curve; two curved pairs share arcs (a half disc cut from its circle). "
+    "of every second curved arc (the sagitta band); T(p) for p at t=1/4,1/2,3/4 (arcs: also 1/7,3/8,5/9,6/7,1/50) of EVERY edge/arc is in the closed shape, not in the open one, and `in` the boundary curve; two curved pairs share arcs (a half disc cut from its circle). "
     "non-trivial = boundaries cross; distinct = (pair, map, operator)."
 )
 ASSUMPTIONS = [
@@ -63,6 +63,9 @@ CURVED_PAIRS = [
     # operands that SHARE arcs (B is a half disc cut from A by a chord)
     ("c8,halfc8", L("Q.c8"), L("Q.halfc8")),
     ("c16,halfc16", L("Q.c16"), L("Q.halfc16")),
+    # a boundary made of one strongly bent cubic segment (teardrop) and a far disc: nothing
+    # crosses, the pair is there for the point / boundary-point / containment queries
+    ("tear,c8far", L("Q.tear"), L("Q.c8far")),
 ]
 CURVED_SUBSET = {"c16,c8s": True, "c8,halfc8": True, "c16,halfc16": True}
 TRANSLATIONS = [(0, 0), (1000, -2000), (10**6, 10**6)]
@@ -136,7 +139,7 @@ def cases(tier, seed):
     for name, a, b in POLY_PAIRS:
         for m in maps(tier, seed):
             specs.append({"id": "%s %s" % (name, map_name(m)), "pair": name, "map": [list(m[0]), m[1], m[2]], "cost": 2})
-    cp = CURVED_PAIRS if tier == "thorough" else CURVED_PAIRS[:3] + CURVED_PAIRS[6:7]
+    cp = CURVED_PAIRS if tier == "thorough" else CURVED_PAIRS[:3] + CURVED_PAIRS[6:7] + CURVED_PAIRS[8:9]
     for name, a, b in cp:
         for m in maps(tier, seed):
             specs.append({"id": "%s %s" % (name, map_name(m)), "pair": name, "map": [list(m[0]), m[1], m[2]], "cost": 30})
@@ -253,7 +256,8 @@ def run_case(spec):
         done = False
         for ci, cv in enumerate(reg.curves()):
             for si, sg in enumerate(cv.segs):
-                for t in (F(1, 4), F(1, 2), F(3, 4)):
+                # (on curved segments also parameters that are not start values of the library's projection)
+                for t in (F(1, 4), F(1, 2), F(3, 4)) + ((F(1, 7), F(3, 8), F(5, 9), F(6, 7), F(1, 50)) if len(sg) > 2 else ()):
                     q = img(rg.bez_eval(sg, t))
                     for qn, call, want in (
                         ("in", lambda: q in S, True),
